@@ -393,6 +393,43 @@ theorem done_out_perm (b : Bool) (s0 : NameSet) (n0 : Nat) (assign : List (List 
   simp only [St.ledger, owed_done hd, List.append_nil] at h2
   exact h2
 
+/-! ## the shared set under any schedule -/
+
+theorem worker_step_set (b : Bool) (w : Worker) (sh : Shared) :
+    (w.step b sh).2.set = sh.set ∨ ∃ req, (w.step b sh).2.set = insertIfAbsent sh.set req := by
+  obtain ⟨cur, rest⟩ := w
+  cases cur with
+  | none => cases rest <;> simp [Worker.step]
+  | some j =>
+    obtain ⟨file, todo, wr, got⟩ := j
+    cases wr with
+    | some req => exact Or.inr ⟨req, by simp [Worker.step, writeStep]⟩
+    | none =>
+      cases todo with
+      | nil => simp [Worker.step]
+      | cons n t =>
+        cases hl : lookup sh.set n <;> simp [Worker.step, hl]
+
+theorem stepAt_set (b : Bool) (i : Nat) (ws : List Worker) (sh : Shared) :
+    (stepAt b i ws sh).2.set = sh.set ∨ ∃ req, (stepAt b i ws sh).2.set = insertIfAbsent sh.set req := by
+  induction ws generalizing i with
+  | nil => simp [stepAt]
+  | cons w r ih =>
+    cases i with
+    | zero => simpa [stepAt] using worker_step_set b w sh
+    | succ i => simpa [stepAt] using ih i
+
+/-- whatever is preserved by `HashSet::insert` is preserved by every schedule -/
+theorem run_set_invariant (P : NameSet → Prop) (hP : ∀ s req, P s → P (insertIfAbsent s req))
+    (b : Bool) (sched : List Nat) (st : St) (h : P st.sh.set) : P (run b sched st).sh.set := by
+  induction sched generalizing st with
+  | nil => exact h
+  | cons i t ih =>
+    apply ih
+    rcases stepAt_set b i st.ws st.sh with e | ⟨req, e⟩
+    · simpa [St.step, e] using h
+    · simpa [St.step, e] using hP _ req h
+
 /-! ## the sequential build -/
 
 theorem internAll_strs (b : Bool) (s : NameSet) (nx : Nat) (l : List Str) :
